@@ -5,6 +5,7 @@ import OpcuaModel.Model.Parse
 import OpcuaModel.Model.Value
 import OpcuaModel.Model.Json
 import OpcuaModel.Model.Write
+import OpcuaModel.Model.Validate
 /-! Line-protocol driver: one JSON object per input line → one JSON object per output line.
     It only *evaluates* the model's definitions; it contains no logic of its own beyond decoding. -/
 open Lean Opcua Opcua.IO
@@ -466,6 +467,43 @@ def opWriteDoc (j : Json) : Except String Json := do
   | .ok d => return Json.mkObj [("doc", wdocToJson d), ("text", Json.str (ofStr (renderDoc d lm pd "<now>".toList)))]
   | .error e => return errJson e
 
+/-! ### validation ops (C11, C16) -/
+def tripleOf (p : Json) : Except String RefRow := do
+  match ← natList p with
+  | [a, b, c] => return (a, b, c)
+  | _ => throw "ref triple"
+
+def triplesToJson (l : List RefRow) : Json := Json.arr (l.map fun r => natsToJson [r.1, r.2.1, r.2.2]).toArray
+
+def opClosed (j : Json) : Except String Json := do
+  let ids ← natList (← j.getObjVal? "ids")
+  let refs ← (← getArr j "refs").toList.mapM tripleOf
+  match validateClosed ids refs with
+  | .ok _ => return Json.mkObj [("ok", Json.bool true)]
+  | .error (.missingSource l) => return Json.mkObj [("missing", "source"), ("rows", triplesToJson l)]
+  | .error (.missingTarget l) => return Json.mkObj [("missing", "target"), ("rows", triplesToJson l)]
+
+def opLookup (j : Json) : Except String Json := do
+  let nodes ← (← getArr j "nodes").toList.mapM fun n => do
+    return (⟨← getNat n "id", ← getStr n "cls", ← getStr n "browse"⟩ : NameRow)
+  let name ← getStr j "name"
+  match lookupBrowse nodes name (getStrOpt j "cls") with
+  | .ok i => return Json.mkObj [("id", Json.num (JsonNumber.fromNat i))]
+  | .error e => return errJson e
+
+def opValidateValues (j : Json) : Except String Json := do
+  let rows ← (← getArr j "rows").toList.mapM fun r => do
+    return (⟨← getStr r "cls", ← getStr r "display", getStrOpt r "value_class", optNatOf (r.getObjValD "dt")⟩ : VRow)
+  let names ← (← getArr j "dt_names").toList.mapM fun p => do
+    let q ← p.getArr?
+    if q.size != 2 then throw "dt name pair"
+    return ((← q[0]!.getNat?), strOf (← q[1]!.getStr?))
+  match validateValues rows (fun i => lookup i names) with
+  | .ok _ => return Json.mkObj [("ok", Json.bool true)]
+  | .error .noDataType => return Json.mkObj [("err", "ValidationError"), ("kind", "no-datatype")]
+  | .error (.invalid ns) => return Json.mkObj [("err", "ValidationError"), ("kind", "invalid"),
+      ("names", Json.arr (ns.map fun n => Json.str (ofStr n)).toArray)]
+
 def dispatch (j : Json) : Except String Json := do
   let op ← (← j.getObjVal? "op").getStr?
   match op with
@@ -489,6 +527,9 @@ def dispatch (j : Json) : Except String Json := do
   | "value.json" => opValueJson j
   | "json.parse" => opJsonParse j
   | "write.doc" => opWriteDoc j
+  | "closed.validate" => opClosed j
+  | "browse.lookup" => opLookup j
+  | "values.validate" => opValidateValues j
   | "ping" => return Json.mkObj [("pong", Json.bool true)]
   | _ => throw s!"unknown op {op}"
 
